@@ -22,6 +22,8 @@ def family():
         yield label, prog, dict(deep=bool(meta.get("xe")))
     for label, prog, meta in F.fam_markers_guarded():
         yield label, prog, dict(deep=True)
+    for label, prog, meta in F.fam_markers_fields():
+        yield label, prog, dict(deep=True, alphabet=meta["alphabet"])
     if core.TIER != "quick":
         for label, prog, meta in F.fam_markers_deep():
             yield label, prog, dict(deep=True)
@@ -31,7 +33,7 @@ def on_prog(p, idx, label, prog, meta):
     from mc.flo import families as F
     if meta.get("deep"):
         runner.explore_and_check(p, idx, label, prog, mons=(), cmp=runner.cmp_full(fields=(0, 1, 3, 4, 5)),
-                                 alphabet=F.XE_ALPHABET, back_alphabet=[None, {"x": 1}], watch=("x", "env.e0"),
+                                 alphabet=meta.get("alphabet") or F.XE_ALPHABET, back_alphabet=[None, {"x": 1}], watch=("x", "env.e0"),
                                  depth=8, sample_every=7)
         return
     runner.explore_and_check(p, idx, label, prog, mons=(), cmp=runner.cmp_full(fields=(0, 1, 4, 5)),
